@@ -248,6 +248,12 @@ def run(tier, v):
             fs = [f if (link == "asis" or len(f) < 34 or f[12:14] not in (b"\x08\x00", b"\x86\xdd")) else c10.relink(f, link) for f in frames]
             for crate in ("uni", "tcp", "http"):
                 fe.append({"id": "%d|%s|%s" % (ti, link, crate), "crate": crate, "frames": [f.hex() for f in fs], "matcher": True, "cfg": {"http": True, "tcp": True, "tls": True, "matcher": True}})
+    # the same capture rotated into two files (after the handshakes, in the middle of the exchanges): one analyzer instance analyses
+    # them one after the other; the HTTP fields of the unified analyzer stay those of the HTTP analyzer, which keeps its connections
+    fs0 = fe_traces[0]
+    for sp in sorted({2, len(fs0) // 3, len(fs0) // 2, len(fs0) - 3}):
+        for crate in ("uni", "http"):
+            fe.append({"id": "0|split%d|%s" % (sp, crate), "crate": crate, "frames": [f.hex() for f in fs0], "split": sp, "matcher": True, "cfg": {"http": True, "tcp": True, "tls": True, "matcher": True}})
     freq = os.path.join(wd, "fe.req")
     vlib.write_ndjson(freq, fe)
     fout = os.path.join(wd, "fe.out")
@@ -278,11 +284,15 @@ def run(tier, v):
         if crate != "uni":
             continue
         union = sorted(sum((got.get((ti, link, c), []) for c in ("tcp", "http")), []))
+        if link.startswith("split"):
+            # (the TCP analyzer starts every capture with an empty tracker, by design: only the HTTP fields are compared)
+            bag = [x for x in bag if x[0] in ("req", "resp")]
+            union = sorted(got.get((ti, link, "http"), []))
         n_fe += 1
         if bag != union:
             only_u = [x for x in bag if x not in union]
             only_p = [x for x in union if x not in bag]
-            v.violation({"path": "analyze_pcap (capture front ends)", "trace": int(ti), "framing": {"asis": "as generated (mostly Ethernet)", "raw": "no link-layer header", "null": "4-octet loopback header"}[link],
+            v.violation({"path": "analyze_pcap (capture front ends)", "trace": int(ti), "framing": {"asis": "as generated (mostly Ethernet)", "raw": "no link-layer header", "null": "4-octet loopback header"}.get(link, "as generated, the capture rotated into two files at frame " + link[5:] + " (same analyzer instance)"),
                          "fields_only_the_unified_analyzer_reports": [x[0] for x in only_u][:20], "fields_only_the_protocol_analyzers_report": [x[0] for x in only_p][:20],
                          "unified_results": len(bag), "protocol_results": len(union)})
     r2 = vlib.tlc("TV_C20", pid=PID, workers=8, env={"TRACE": trace}, timeout=1800, heap="10g")
